@@ -1,0 +1,6 @@
+//go:build !verif
+
+package ast
+
+// verifHook is a no-op unless built with the verif tag.
+func verifHook(int) {}
